@@ -29,6 +29,7 @@ def afm_attr_alphabet():
         ('a', A([], ['Abc', 'x1'], 'Abc', 'x1')),
         ('tox', A([(0, 100)], [], '0', '100')),
         ('att', A([], ['"a b"', '"c, d"'], '"a b"', '"c, d"')),
+        ('att', A([], ['"a  b"', '"c   d "'], '"a  b"', '"c   d "')),
         ('att', A([], ['"a\r\nb"', '"\r"', '"\n"'], '"\r"', '"\n"')),
         ('att', A([], ['"tab\there"', '"a\rb"'], '"a\rb"', '"tab\there"')),
     ]
